@@ -523,6 +523,133 @@ MUTANTS = [
                     state.graph[export].item_kind(),
                     state.graph.types(),
                 )"""),
+    dict(id="c06-unset-find-edge", prop="C06", expect="R06.9|edge-selection", file="crates/wac-graph/src/graph.rs",
+         old="""        let mut edge = None;
+        for e in self.graph.edges_connecting(argument.0, instantiation.0) {
+            match e.weight() {
+                Edge::Alias(_) | Edge::Dependency => {
+                    panic!("unexpected edge for an instantiation")
+                }
+                Edge::Argument(i) => {
+                    if *i == argument_index {
+                        edge = Some(e.id());
+                        break;
+                    }
+                }
+            }
+        }
+""",
+         new="""        let edge = self.graph.find_edge(argument.0, instantiation.0);
+"""),
+    dict(id="c06-unset-first-argument-edge", prop="C06", expect="R06.9|edge-selection", file="crates/wac-graph/src/graph.rs",
+         old="""        let mut edge = None;
+        for e in self.graph.edges_connecting(argument.0, instantiation.0) {
+            match e.weight() {
+                Edge::Alias(_) | Edge::Dependency => {
+                    panic!("unexpected edge for an instantiation")
+                }
+                Edge::Argument(i) => {
+                    if *i == argument_index {
+                        edge = Some(e.id());
+                        break;
+                    }
+                }
+            }
+        }
+""",
+         new="""        let edge = self
+            .graph
+            .edges_connecting(argument.0, instantiation.0)
+            .find_map(|e| match e.weight() {
+                Edge::Alias(_) | Edge::Dependency => {
+                    panic!("unexpected edge for an instantiation")
+                }
+                Edge::Argument(_) => Some(e.id()),
+            });
+"""),
+    dict(id="ctl-unset-find-map-guarded", prop="ALL", control=True, file="crates/wac-graph/src/graph.rs",
+         old="""        let mut edge = None;
+        for e in self.graph.edges_connecting(argument.0, instantiation.0) {
+            match e.weight() {
+                Edge::Alias(_) | Edge::Dependency => {
+                    panic!("unexpected edge for an instantiation")
+                }
+                Edge::Argument(i) => {
+                    if *i == argument_index {
+                        edge = Some(e.id());
+                        break;
+                    }
+                }
+            }
+        }
+""",
+         new="""        let edge = self
+            .graph
+            .edges_connecting(argument.0, instantiation.0)
+            .find_map(|e| match e.weight() {
+                Edge::Alias(_) | Edge::Dependency => {
+                    panic!("unexpected edge for an instantiation")
+                }
+                Edge::Argument(i) if *i == argument_index => Some(e.id()),
+                Edge::Argument(_) => None,
+            });
+"""),
+    dict(id="ctl-unset-find-then-id", prop="ALL", control=True, file="crates/wac-graph/src/graph.rs",
+         old="""        let mut edge = None;
+        for e in self.graph.edges_connecting(argument.0, instantiation.0) {
+            match e.weight() {
+                Edge::Alias(_) | Edge::Dependency => {
+                    panic!("unexpected edge for an instantiation")
+                }
+                Edge::Argument(i) => {
+                    if *i == argument_index {
+                        edge = Some(e.id());
+                        break;
+                    }
+                }
+            }
+        }
+""",
+         new="""        let edge = self
+            .graph
+            .edges_connecting(argument.0, instantiation.0)
+            .find(|e| match e.weight() {
+                Edge::Alias(_) | Edge::Dependency => {
+                    panic!("unexpected edge for an instantiation")
+                }
+                Edge::Argument(i) => *i == argument_index,
+            })
+            .map(|e| e.id());
+"""),
+    dict(id="c12-lexical-comment-needs-newline", prop="C12", expect="R12.10|pattern|Token::Comment", file="crates/wac-parser/src/lexer.rs",
+         old="""    #[regex(r"//[^\\n]*", logos::skip)]""", new="""    #[regex(r"//[^\\n]*\\n", logos::skip)]"""),
+    dict(id="c12-lexical-ident-digit-start", prop="C12", expect="R12.10|pattern|Token::Ident", file="crates/wac-parser/src/lexer.rs",
+         old="""#[logos(subpattern word = r"[a-z][a-z0-9]*|[A-Z][A-Z0-9]*")]""", new="""#[logos(subpattern word = r"[a-z0-9][a-z0-9]*|[A-Z][A-Z0-9]*")]"""),
+    dict(id="ctl-lexical-respelled-patterns", prop="ALL", control=True, file="crates/wac-parser/src/lexer.rs", multi=True,
+         edits=[("""    #[regex(r"//[^\\n]*", logos::skip)]""", """    #[regex(r"//([^\\n])*", logos::skip)]"""),
+                ("""#[logos(subpattern word = r"[a-z][a-z0-9]*|[A-Z][A-Z0-9]*")]""", """#[logos(subpattern word = r"[A-Z][0-9A-Z]*|[a-z][0-9a-z]*")]""")]),
+    dict(id="c12-grammar-interface-export-separator", prop="C12", expect="R12.1|production|type::InterfaceExport", file="crates/wac-parser/src/ast/type.rs",
+         old="""        let id = Ident::parse(lexer)?;
+        parse_token(lexer, Token::Colon)?;
+        let ty = Parse::parse(lexer)?;
+        parse_token(lexer, Token::Semicolon)?;
+        Ok(Self { docs, id, ty })""",
+         new="""        let id = Ident::parse(lexer)?;
+        parse_token(lexer, Token::Equals)?;
+        let ty = Parse::parse(lexer)?;
+        parse_token(lexer, Token::Semicolon)?;
+        Ok(Self { docs, id, ty })"""),
+    dict(id="c12-grammar-peek-first-too-narrow", prop="C12", expect="R12.2|peek-first|type::ResourceMethod", file="crates/wac-parser/src/ast/type.rs",
+         old="""        lookahead.peek(Token::ConstructorKeyword) || Ident::peek(lookahead)""",
+         new="""        lookahead.peek(Token::ConstructorKeyword)"""),
+    dict(id="c12-grammar-stale-lookahead", prop="C12", expect="R12.8|fresh|expr::InstantiationArgument", file="crates/wac-parser/src/ast/expr.rs",
+         old="""            let span = parse_token(lexer, Token::Ellipsis)?;
+            match lexer.peek() {""",
+         new="""            let span = parse_token(lexer, Token::Ellipsis)?;
+            if Ident::peek(&mut lookahead) {
+                return Ok(Self::Spread(Parse::parse(lexer)?));
+            }
+            match lexer.peek() {"""),
     dict(id="c12-keyword-spelling", prop="C12", expect="R12.3|token|IncludeKeyword", file="crates/wac-parser/src/lexer.rs",
          old="""    #[token("include")]""", new="""    #[token("includes")]"""),
     dict(id="c12-trailing-separator-mandatory", prop="C12", expect="R12.7|trailing-comma-optional", file="crates/wac-parser/src/ast.rs",
